@@ -103,11 +103,18 @@ func VH_C04() {
 	err := w1.UnmarshalBebop(buf)
 	vstub.Assert("c04.unmarshal.err", err == nil)
 	vstub.Assert("c04.unmarshal.eq", xEq_Rec(w1, v))
+	vC04Stream(v, buf, 0)
+}
+
+// the underlying reader may deliver short reads: everything at once (mode 0),
+// one byte at a time (1), or one short read anywhere (2)
+func VH_C04B() { v := vNondet_Rec(0); vC04Stream(v, v.MarshalBebop(), 1) }
+func VH_C04C() { v := vNondet_Rec(0); vC04Stream(v, v.MarshalBebop(), 2) }
+
+func vC04Stream(v Rec, buf []byte, mode int) {
 	var w2 v1.Rec
 	fr := vstub.NewFragReader(buf)
-	// the underlying reader may deliver short reads: everything at once, one
-	// byte at a time, or one short read anywhere
-	switch vstub.Choose(0, 2) {
+	switch mode {
 	case 0:
 		fr.Full = true
 	case 1:
@@ -115,7 +122,7 @@ func VH_C04() {
 	default:
 		fr.Budget = 1
 	}
-	err = w2.DecodeBebop(fr)
+	err := w2.DecodeBebop(fr)
 	vstub.Assert("c04.decode.err", err == nil)
 	vstub.Assert("c04.decode.eq", xEq_Rec(w2, v))
 	vstub.Assert("c04.decode.pos", fr.Pos == len(buf))
